@@ -99,6 +99,18 @@ func isSimpleWord(s string) bool {
 	return true
 }
 
+func firstAlnumIsDigit(s string) bool {
+	for _, r := range s {
+		if unicode.IsDigit(r) {
+			return true
+		}
+		if unicode.IsLetter(r) {
+			return false
+		}
+	}
+	return false
+}
+
 func isASCII(s string) bool {
 	for _, r := range s {
 		if r > 127 {
@@ -135,7 +147,7 @@ func knownBad(kind, s string) string {
 		if modelMethods[k] {
 			return "definition-named-like-model-method"
 		}
-		if unicode.IsDigit([]rune(s)[0]) {
+		if firstAlnumIsDigit(s) {
 			return "definition-leading-digit"
 		}
 		if caselessInitial(s) {
@@ -167,6 +179,9 @@ func knownBad(kind, s string) string {
 		}
 		if modelMethods[k] {
 			return "property-named-like-model-method"
+		}
+		if !unicode.IsDigit([]rune(s)[0]) && firstAlnumIsDigit(s) {
+			return "property-symbol-then-digit"
 		}
 		if kind == "discriminator" && unicode.IsDigit([]rune(s)[0]) {
 			return "discriminator-leading-digit"
@@ -236,6 +251,9 @@ func (n *namer) draw(t *rapid.T, label, kind, ns string, ok func(string) bool) s
 		}
 		if (kind == "parameter" || kind == "path-parameter" || kind == "header") && (strings.HasPrefix(k, "set") || strings.HasPrefix(k, "with")) {
 			continue // Set<x> / With<x> collide with the accessors generated for a parameter named x (C08's subject)
+		}
+		if (kind == "parameter" || kind == "path-parameter") && strings.HasPrefix(k, "x") && len(k) > 1 {
+			continue // x<name> may collide with the header X-<name> of the same operation (C08's subject)
 		}
 		if (kind == "parameter" || kind == "path-parameter" || kind == "header") && k == "body" {
 			continue // would collide with the body parameter (C08's subject)
@@ -432,22 +450,26 @@ func gen(t *rapid.T) Case {
 			op := ops[specgen.Uniform(t, "tf_op", len(ops))]
 			ps, _ := op.Op["parameters"].(A)
 			used := map[string]bool{}
-			for _, p := range ps {
-				if pj, ok := p.(J); ok {
-					used[mangleKey(fmt.Sprint(pj["name"]))] = true
-				}
+			for _, p := range specgen.EffectiveParams(op) {
+				k := mangleKey(fmt.Sprint(p.P["name"]))
+				used[k] = true
+				used[strings.TrimPrefix(k, "x")] = true
 			}
 			n := rapid.IntRange(1, 2).Draw(t, "tf_n")
+			if c.Target == "cli" {
+				n = 1
+			}
 			for i, p := range ps {
 				pj, ok := p.(J)
 				if !ok || n == 0 || pj["in"] == "body" || pj["in"] == "path" {
 					continue
 				}
 				name := specgen.Pick(t, fmt.Sprintf("tf_name%d", i), family)
-				if used[mangleKey(name)] {
+				if used[mangleKey(name)] || used["x"+mangleKey(name)] {
 					continue
 				}
 				used[mangleKey(name)] = true
+				used["x"+mangleKey(name)] = true
 				if pj["in"] == "header" {
 					name = "X-" + name
 				}
@@ -690,6 +712,10 @@ func sanitize(doc J, feats map[string]bool, flatten string) {
 						sch["items"] = J{"type": "string"}
 					}
 				}
+				// same defect with any item type that needs no validation of its own: no length constraints on body arrays
+				delete(sch, "minItems")
+				delete(sch, "maxItems")
+				delete(sch, "uniqueItems")
 			}
 		}
 	}
